@@ -13,7 +13,8 @@
          "Y" epoch YYYY:DDD:SSSSS, "G" angle as DDD MM SS.S, "W" blank-separated words, "L" free list line.
    width 0 = open ended (up to the end of the line).
 
-   Remarks.  SITE/ID: the DOMES number A9 is (5 digits area/site)(1 letter M|S + 3 digits); midgard reads it as two
+   Remarks.  SITE/GAL_PHASE_CENTER: three lines per antenna (L1/L5, L6/L7, L8/reserved), every line in the layout of
+   SITE/GPS_PHASE_CENTER (1X,A20,1X,A5,6(1X,F6.4),1X,A10).  SITE/ID: the DOMES number A9 is (5 digits area/site)(1 letter M|S + 3 digits); midgard reads it as two
    columns "domes" and "marker", the spec lists the two parts.  The descriptive last text columns of the 80-column
    SINEX blocks end at column 79. *)
 From Coq Require Import List String.
@@ -38,6 +39,7 @@ Definition sinex_format : list spec_block := [
 ("base", "SITE/RECEIVER", [("code", 1, 4, "A"); ("pt", 6, 2, "A"); ("soln", 9, 4, "A"); ("technique", 14, 1, "A"); ("start", 16, 12, "T"); ("end", 29, 12, "T"); ("receiver", 42, 20, "A"); ("serial", 63, 5, "A"); ("firmware", 69, 11, "A")]);
 ("base", "SITE/ANTENNA", [("code", 1, 4, "A"); ("pt", 6, 2, "A"); ("soln", 9, 4, "A"); ("technique", 14, 1, "A"); ("start", 16, 12, "T"); ("end", 29, 12, "T"); ("antenna", 42, 20, "A"); ("serial", 63, 5, "A")]);
 ("base", "SITE/GPS_PHASE_CENTER", [("antenna", 1, 20, "A"); ("serial", 22, 5, "A"); ("l1_up", 28, 6, "F"); ("l1_north", 35, 6, "F"); ("l1_east", 42, 6, "F"); ("l2_up", 49, 6, "F"); ("l2_north", 56, 6, "F"); ("l2_east", 63, 6, "F"); ("model", 70, 10, "A")]);
+("base", "SITE/GAL_PHASE_CENTER", [("antenna", 1, 20, "A"); ("serial", 22, 5, "A"); ("a_up", 28, 6, "F"); ("a_north", 35, 6, "F"); ("a_east", 42, 6, "F"); ("b_up", 49, 6, "F"); ("b_north", 56, 6, "F"); ("b_east", 63, 6, "F"); ("model", 70, 10, "A")]);
 ("base", "SITE/ECCENTRICITY", [("code", 1, 4, "A"); ("pt", 6, 2, "A"); ("soln", 9, 4, "A"); ("technique", 14, 1, "A"); ("start", 16, 12, "T"); ("end", 29, 12, "T"); ("system", 42, 3, "A"); ("up", 46, 8, "F"); ("north", 55, 8, "F"); ("east", 64, 8, "F")]);
 ("base", "SATELLITE/ID", [("code", 1, 4, "A"); ("prn", 6, 2, "A"); ("cospar", 9, 9, "A"); ("technique", 19, 1, "A"); ("start", 21, 12, "T"); ("end", 34, 12, "T"); ("antenna", 47, 20, "A")]);
 ("base", "SATELLITE/PHASE_CENTER", [("code", 1, 4, "A"); ("freq1", 6, 1, "A"); ("z1", 8, 6, "F"); ("x1", 15, 6, "F"); ("y1", 22, 6, "F"); ("freq2", 29, 1, "A"); ("z2", 31, 6, "F"); ("x2", 38, 6, "F"); ("y2", 45, 6, "F"); ("model", 52, 10, "A"); ("type", 63, 1, "A"); ("applied", 65, 1, "A")]);
